@@ -289,6 +289,18 @@ class Machine:
                     binder = (lambda v, dl=dl: ({dl: ("i", v)} if (v is not None and dl is not None) else {})) if slot else None
                     ev = [(label, binder)]
                 where = "%s (%s:%s)" % (fn.replace("preflate_rs::", ""), body.file, t.get("line"))
+                # two sites on one source line (a tuple of two reads) are two sites
+                if not hasattr(self, "_site_label"):
+                    self._site_label = {}
+                if (fn, bb) in self._site_label:
+                    where = self._site_label[(fn, bb)]
+                else:
+                    k = 1
+                    base_lbl = where
+                    while where in self.site_info and self.site_info[where] != (fn, bb):
+                        k += 1
+                        where = "%s#%d" % (base_lbl, k)
+                    self._site_label[(fn, bb)] = where
                 if tgt is None:
                     return []
                 out = []
